@@ -2,10 +2,13 @@
    Statements only, over the post-chain IR context (what the Go jenny receives).  ir_valid /
    roundtrip_safe / roundtrip_holds: Model/GoSemSpec01.v.  roundtrip_holds ctx p n d says: the standard
    and the strict decoder both succeed, the re-encoded value is still ir_valid, and it is JSON-equal to
-   d except for omitted null members.  The composition with the three front-ends (acceptance by the
-   SOURCE schema) is covered by the correspondence of checks/c01.py, not by these theorems. *)
+   d except for omitted null members.  The JSON Schema front-end is modelled too (Model/FrontEnd.v
+   parse_jsonschema, compared with the real parser's pre-chain IR on every run): the last section relates acceptance
+   by the SOURCE schema to acceptance by the IR the parser produces.  What the Go chain does to acceptance between
+   the pre-chain and the post-chain IR is covered by the correspondence of checks/c01.py only. *)
 From Coq Require Import List String ZArith Bool.
-From Cog Require Import Model.GoSem Model.GoSemSpec08 Model.GoSemSpec01 Model.GoSemSpec01F Proofs.GoSemC01Proofs.
+From Cog Require Import Model.GoSem Model.GoSemSpec08 Model.GoSemSpec01 Model.GoSemSpec01F Proofs.GoSemC01Proofs
+     Model.Src Model.FrontEnd Model.FrontEndSpec Proofs.FrontEndWitness Proofs.FrontEndFields Proofs.FrontEndAccept Proofs.FrontEndProofs.
 Import ListNotations.
 Local Open Scope string_scope.
 
@@ -57,3 +60,28 @@ Print Assumptions roundtrip_safeF_implies_safe.
 Example c01_nonvacuous : exists ctx p n d, ctx_supported ctx = true /\ struct_object ctx p n = true /\ json_wf d = true /\
   ir_valid_object ctx p n d = true /\ roundtrip_safeF ctx p n d = true /\ json_depth d >= 2.
 Proof. exact GoSemC01Proofs.c01_nonvacuous_weak. Qed.
+
+(* ---------------- the JSON Schema front-end (Model/FrontEnd.v; Proofs/FrontEnd*.v) ----------------
+   acceptance_agrees s tname d: the source schema (Src semantics, validated against python jsonschema) accepts d
+   at definition tname  <->  the IR parse_jsonschema produces accepts it (Model/FrontEndSpec.v ir_accepts). *)
+Theorem parse_preserves_acceptance_refuted_full :
+  ~ (forall s tname d, src_wf s = true -> json_wf d = true -> json_ints_int64 d = true ->
+       str_in tname (map fst (src_defs s)) = true -> acceptance_agrees s tname d = true).
+Proof. exact parse_preserves_acceptance_refuted. Qed.
+Print Assumptions parse_preserves_acceptance_refuted_full.
+(* ... and holds for every schema of the grammar without a constrained `[T, "null"]` type array (the witness of
+   the refutation = finding C08-jsonschema-nullable-scalar-type-array-drops-constraints), with decimal bounds of
+   at most 4 digits mantissa / 3 decimals (the print-parse round trip of numbers is discharged by enumeration)
+   and acyclic aliases, and every well-formed document *)
+Theorem parse_preserves_acceptance_partial :
+  forall s tname d, src_wf s = true -> schema_no_constrained_typearray s = true ->
+    schema_bounds_small s = true -> schema_aliases_resolve s = true ->
+    json_wf d = true -> json_ints_int64 d = true ->
+    str_in tname (map fst (src_defs s)) = true -> acceptance_agrees s tname d = true.
+Proof. exact parse_preserves_acceptance_partial_weak. Qed.
+Print Assumptions parse_preserves_acceptance_partial.
+Theorem frontend_hypotheses_satisfiable : exists s tname d, src_wf s = true /\ schema_no_constrained_typearray s = true /\ json_wf d = true /\
+  json_ints_int64 d = true /\ str_in tname (map fst (src_defs s)) = true /\ src_valid_doc "jsonschema" s tname d = true /\
+  schema_fields_kept s = true.
+Proof. exact frontend_nonvacuous. Qed.
+Print Assumptions frontend_hypotheses_satisfiable.
